@@ -70,6 +70,7 @@ def run(ctx):
             "function replaced by a proxy answering every attribute": row(M, "proxied", {"a": INT}, INT),
             "property over a non-function getter": row(M, "Holder2.po", {"self": td(M, "Holder2")}, INT),
             "attribute lookup raising another exception": row(M, "Settings.debug", {"self": INT}, INT),
+            "argument class in a module whose import fails (ImportError, not ModuleNotFoundError)": row(M, "g", {"w": td("fxc10.broken", "K")}, INT),
         }
         # rows that decode but mention parameters that no longer exist are NOT stale: they must be used and the extra name ignored
         extra_param = row(M, "f", {"a": INT, "gone_param": INT}, INT)
